@@ -7,7 +7,7 @@ SRC = ['contracts/bytecode.c']
 ASSUME = [
     'orc_realloc is an assumed contract (fresh block of the requested size, old contents preserved, old block released)',
     'buffer length capped at 10^6 bytes',
-    'whole-program round trip (orc_bytecode_from_program / orc_bytecode_parse_function) is NOT covered by a discharged contract: the monolithic query is intractable (DESIGN.md probe 19); only the encode/decode primitives are proved to be inverse pairs',
+    'whole-program round trip (orc_bytecode_from_program / orc_bytecode_parse_function) is NOT covered by a discharged contract: the monolithic query is intractable (DESIGN.md probe 19); the encode/decode primitives are proved to be inverse pairs and the encoder\'s instruction record is proved over their contracts; declaration records and the decoder\'s dispatch are not covered',
 ]
 
 
@@ -23,6 +23,10 @@ def units(tier, seed, only=None):
         us.append(core.Unit(lem, SRC, lem, enforce=None, replace=[a, g], functions=[],
                             contract_text='lemma over the two contracts: decode(encode(v)) == v and the decoder ends where the encoder ended'))
     us.append(core.Unit('lemma_lanes', SRC, 'lemma_lanes', enforce=None, no_dfcc=True, functions=[], contract_text='bit-vector extensionality used to lift the per-lane lemmas'))
+    us.append(core.Unit('orc_bytecode_from_program:insn_record', SRC, 'lemma_insn_record', enforce=None, replace=['bytecode_append_byte', 'bytecode_append_int'],
+                        functions=['orc_bytecode_from_program'], defines=['VERIF_INSN_RECORD'], unwind=17, timeout=300,
+                        contract_text='harness-level postcondition on the real encoder over the primitives\' contracts: a program with no declarations and one arbitrary instruction is written as [flags record] opcode-index+32, then d0 d1 s0 s1 s2 (each if its size is non-zero), END_FUNCTION, END; all loops have constant bounds (<= 16) and are unwound completely (unwinding assertions on)',
+                        assumed=['orc_opcode_set_get("sys") returns a set of 4 opcodes with arbitrary operand sizes (the lookup itself is C17/C05 territory)', 'orc_malloc does not fail (it aborts on failure in the real library)']))
     if only:
         us = [u for u in us if re.search(only, u.name)]
     return us
